@@ -1230,13 +1230,14 @@ _PARSE_TO_SIGNATURES = (
 def _parse_to_arg_ok(name, value, optional):
     if name == "device":
         return value is None or (
-            isinstance(value, (str, torch.device, int)) and not isinstance(value, bool)
+            isinstance(value, (str, bytes, torch.device, int))
+            and not isinstance(value, bool)
         )
     if name == "dtype":
         return isinstance(value, torch.dtype) or (optional and value is None)
     if name == "tensor":
         # the native parser wraps python numbers in a (cpu) tensor
-        return isinstance(value, (Tensor, bool, int, float))
+        return isinstance(value, (Tensor, bool, int, float, complex))
     if name == "memory_format":
         return value is None or isinstance(value, torch.memory_format)
     # non_blocking, copy
@@ -1284,8 +1285,10 @@ def _parse_to_py(args, kwargs):
                     dtype = torch.bool
                 elif isinstance(tensor, int):
                     dtype = torch.int64
-                else:
+                elif isinstance(tensor, float):
                     dtype = torch.float64
+                else:
+                    dtype = torch.complex128
         else:
             device = bound.get("device")
             if device is not None:
